@@ -120,6 +120,32 @@ def _run_sharded(binary, cases, timeout, env=None):
     return results, errs
 
 
+def run_isolated(binary, cases, per_case_timeout=20, mem_kb=3000000):
+    """one process per case with a wall-clock watchdog and an address-space limit;
+    returns (results, hung ids, crashed ids)"""
+    from concurrent.futures import ThreadPoolExecutor
+    results, hung, crashed = {}, [], []
+
+    def one(line):
+        cid = case_id(line)
+        try:
+            p = subprocess.run(["sh", "-c", "ulimit -v %d; exec %s" % (mem_kb, binary)], input=line + "\n",
+                               stdout=subprocess.PIPE, stderr=subprocess.PIPE, text=True, timeout=per_case_timeout)
+        except subprocess.TimeoutExpired:
+            hung.append(cid)
+            return
+        lines = p.stdout.splitlines()
+        if p.returncode != 0 or "end" not in lines:
+            crashed.append(cid)
+            results[cid] = ["crashed rc=%s %s" % (p.returncode, p.stderr.strip()[:200].replace("\n", " "))]
+            return
+        results[cid] = [l for l in lines if not l.startswith("case ") and l != "end"]
+
+    with ThreadPoolExecutor(max_workers=common.NCPU) as ex:
+        list(ex.map(one, cases))
+    return results, hung, crashed
+
+
 def run_impl(cases, timeout=900):
     return _run_sharded(IMPL_BIN, cases, timeout)
 
